@@ -175,6 +175,68 @@ def showPlan (st : SState) : String :=
 def showGraphH (g : Graph String) : String :=
   showGraph { g with provides := g.provides.map (fun p => (toh p.1, p.2)), unresolved := g.unresolved.map toh }
 
+/-! ### pool traces -/
+
+def lstatOfName (s : String) : LStatus := (LStatus.ofName? s).getD .unknown
+
+def parseLabel (tok : String) : Option (Sum Pool.Label (List String)) :=
+  match tok.splitOn ":" with
+  | ["e", deps, lim] => some (.inl (.enq (if deps.isEmpty then [] else (deps.splitOn ",").map nat!) (lim.toNat?)))
+  | ["c", t] => some (.inl (.cancelReq (nat! t)))
+  | ["t", dt] => some (.inl (.tick (nat! dt)))
+  | ["x", t, c] => some (.inl (.exit (nat! t) (c.toInt?.getD 0)))
+  | ["b", f] => some (.inl (.breakLogs (f == "1")))
+  | ["s", t, st] => some (.inl (.set (nat! t) (lstatOfName st)))
+  | ["q", t] => some (.inl (.acqReq (nat! t)))
+  | ["a", t] => some (.inl (.acq (nat! t)))
+  | ["r", t] => some (.inl (.rel (nat! t)))
+  | ["p", t] => some (.inl (.spawn (nat! t)))
+  | ["f", t] => some (.inl (.spawnFail (nat! t)))
+  | ["k", t] => some (.inl (.kill (nat! t)))
+  | ["d", t, c] => some (.inl (.taskDone (nat! t) (c == "1")))
+  | ["Q", sts] => some (.inr (if sts.isEmpty then [] else sts.splitOn ","))
+  | _ => none
+
+/-- predicates evaluated after every label -/
+def poolAlways (s : Pool.Pool) : List String :=
+  (if s.aliveTids.length ≤ s.maxCores then [] else ["more-processes-alive-than-cores"])
+
+/-- predicates evaluated at points where the implementation's loop is idle -/
+def poolAtQ (s : Pool.Pool) (observed : List String) : List String :=
+  let sts := s.tasks.map (fun t => t.st.name)
+  (if sts == observed then [] else ["task-state-table-differs"]) ++
+  (if s.quiescent then [] else
+     (if s.holders.length < s.maxCores && s.tasks.any (·.wantsCore) then ["free-core-idle-while-task-ready"]
+      else ["implementation-idle-but-task-not-parked"])) ++
+  (if s.aliveTids.isEmpty && !s.tasks.any (fun t => t.phase == .killT || t.phase == .killC)
+       && s.tasks.any (fun t => t.phase != .done) then ["task-never-reaches-final-state"] else [])
+
+/-- the trace oracles C11/C12/C13 on the observed labels alone -/
+def poolOracle (cores : Nat) (toks : List String) : List String :=
+  let o := toks.foldl (fun (o : PoolSpec.Obs) tok =>
+    match parseLabel tok with
+    | some (.inl l) => PoolSpec.obsStep o l
+    | some (.inr _) => PoolSpec.atQuiescence o
+    | none => o) { cores := cores }
+  (PoolSpec.atEnd o).fails
+
+partial def poolRun (s : Pool.Pool) (i : Nat) (toks : List String) (nq : Nat) (issues : List String) : String :=
+  match toks with
+  | [] => (if issues.isEmpty then "ok" else "issues " ++ " ".intercalate issues.reverse) ++ " n=" ++ toString i ++ " q=" ++ toString nq
+  | tok :: rest =>
+    if issues.length > 20 then "issues " ++ " ".intercalate issues.reverse ++ " n=" ++ toString i ++ " q=" ++ toString nq else
+    match parseLabel tok with
+    | none => "bad-label " ++ tok
+    | some (.inr obs) =>
+      let fails := poolAtQ s obs
+      poolRun s (i + 1) rest (nq + 1) ((fails.map (fun f => "fail@" ++ toString i ++ ":" ++ f ++ ":Q")).reverse ++ issues)
+    | some (.inl l) =>
+      match Pool.step s l with
+      | none => poolRun (Pool.force s l) (i + 1) rest nq (("reject@" ++ toString i ++ ":" ++ Pool.whyNot s l ++ ":" ++ tok.replace ":" "_") :: issues)
+      | some s' =>
+        let fails := poolAlways s'
+        poolRun s' (i + 1) rest nq ((fails.map (fun f => "fail@" ++ toString i ++ ":" ++ f ++ ":" ++ tok.replace ":" "_")).reverse ++ issues)
+
 def dispatch (toks : List String) : String :=
   match toks with
   | ["ping"] => "pong"
@@ -271,6 +333,8 @@ def dispatch (toks : List String) : String :=
           if fails.isEmpty then "ok" else "fail " ++ ",".intercalate fails
         | none => "bad-op")
      | _ => "bad-op")
+  | "pool.run" :: cores :: labels =>
+    poolRun (Pool.init (nat! cores)) 0 labels 0 [] ++ " oracle=" ++ ",".intercalate (poolOracle (nat! cores) labels)
   | _ => "bad-op"
 
 end Drv
